@@ -30,7 +30,7 @@ def jobs(tier, seed):
     if tier == "quick":
         m4 = [(1, 2), (1, 15), (2, 3), (2, 15), (3, 7), (5, 11), (7, 15), (11, 15), (14, 15), (8, 12)]
         m8 = [(1, 2), (2, 4), (3, 6), (2, 6), (5, 6)]
-        leg = [(2, 4), (3, 6)]
+        leg = [(2, 3), (2, 4), (3, 6)]
     else:
         m4 = [(k, n) for n in range(2, 16) for k in range(1, n)]
         m8 = [(k, n) for n in range(2, 11) for k in range(1, n)]
@@ -38,16 +38,16 @@ def jobs(tier, seed):
     for (k, n) in m4:
         js.append(Job("generator.gf2m.m4.k%d.n%d" % (k, n), "generator_gf2m_m4", H, ["of_rs_2m_build_encoding_matrix", "of_galois_field_2_4_invert_vdm", "of_galois_field_2_4_matmul"],
                       repo_sources=GF2M, defines={"OFV_T": 1, "OFV_M": 4, "OFV_K": k, "OFV_N": n}, unwind=300, object_bits=10, timeout=900, mem_gb=6,
-                      status="proved" if tier != "quick" else "bounded", native=False,
+                      status="proved" if tier != "quick" else "bounded",
                       bound="(k,n) harness constants; the family 1 <= k < n <= 15 has 105 members (all run in the thorough tier; %d here)" % len(m4)))
     for (k, n) in m8:
         js.append(Job("generator.gf2m.m8.k%d.n%d" % (k, n), "generator_gf2m_m8", H, ["of_rs_2m_build_encoding_matrix", "of_galois_field_2_8_invert_vdm", "of_galois_field_2_8_matmul"],
                       repo_sources=GF2M, defines={"OFV_T": 1, "OFV_M": 8, "OFV_K": k, "OFV_N": n}, unwind=300, object_bits=10, timeout=900, mem_gb=6,
-                      status="bounded", native=False, bound="(k,n) in a small set (%d pairs, n <= %d)" % (len(m8), max(n for _, n in m8))))
+                      status="bounded", bound="(k,n) in a small set (%d pairs, n <= %d)" % (len(m8), max(n for _, n in m8))))
     for (k, n) in leg:
         js.append(Job("generator.legacy.k%d.n%d" % (k, n), "generator_legacy_gf256", H, ["of_rs_new", "of_invert_vdm", "of_matmul"],
                       repo_sources=[M], tu_included=[LEG], defines={"OFV_T": 2, "OFV_K": k, "OFV_N": n}, unwind=300, object_bits=10, timeout=1500, mem_gb=8,
-                      status="bounded", native=False, bound="(k,n) in a small set (%d pairs)" % len(leg)))
+                      status="bounded", bound="(k,n) in a small set (%d pairs)" % len(leg)))
     # --- encode contracts (arbitrary generator row)
     K, LEN = 3, 3
     for m in (8, 4):
